@@ -24,5 +24,9 @@ View == vars
 NotTainted == ~tainted
 
 \* S->I: print one behaviour per distinct state just reached by Process (the BFS-shortest history to it)
-EmitHistory == (fresh /\ hist # <<>> /\ hist[Len(hist)].ev = "process") => PrintT("HIST " \o ToJson([c0 |-> cfg0, events |-> hist]))
+\* the output location AS TYPED by the user: all spellings name the same directory, so every behaviour must be the same
+\* whichever is used (the choice is a function of the history: each behaviour is replayed under one spelling)
+OutSpellings == <<"out", "./out", "lib/../out">>
+OutSp == OutSpellings[((Len(hist) + Cardinality({k \in 1..Len(hist) : hist[k].ev \in {"add", "edit"}})) % Len(OutSpellings)) + 1]
+EmitHistory == (fresh /\ hist # <<>> /\ hist[Len(hist)].ev = "process") => PrintT("HIST " \o ToJson([c0 |-> cfg0, events |-> hist, outsp |-> OutSp]))
 =============================================================================
